@@ -48,3 +48,68 @@ impl RawPdf {
         out
     }
 }
+
+impl RawPdf {
+    /// The same objects written the PDF 1.5 way: every non-stream object inside one
+    /// uncompressed object stream, and an uncompressed cross-reference stream (/W [1 4 2]).
+    pub fn finish_compressed(&self, root: u32) -> Vec<u8> {
+        let n = self.objs.len() as u32;
+        let stm_num = n + 1;
+        let xref_num = n + 2;
+        let mut out = b"%PDF-1.5\n%\xE2\xE3\xCF\xD3\n".to_vec();
+        // entry per object number: (type, field2, field3)
+        let mut entries: Vec<(u8, u32, u16)> = vec![(0, 0, 65535)];
+        let mut packed: Vec<(u32, Vec<u8>)> = Vec::new();
+        let mut plain: Vec<(u32, Vec<u8>)> = Vec::new();
+        for (i, o) in self.objs.iter().enumerate() {
+            let num = i as u32 + 1;
+            let body = o.clone().unwrap_or_else(|| b"null".to_vec());
+            let is_stream = body.windows(8).any(|w| w == b"\nstream\n");
+            if is_stream || num == root && false {
+                plain.push((num, body));
+            } else {
+                packed.push((num, body));
+            }
+        }
+        let mut slot: std::collections::HashMap<u32, (u8, u32, u16)> = std::collections::HashMap::new();
+        for (idx, (num, _)) in packed.iter().enumerate() {
+            slot.insert(*num, (2, stm_num, idx as u16));
+        }
+        for (num, body) in &plain {
+            slot.insert(*num, (1, out.len() as u32, 0));
+            out.extend_from_slice(format!("{num} 0 obj\n").as_bytes());
+            out.extend_from_slice(body);
+            out.extend_from_slice(b"\nendobj\n");
+        }
+        // object stream
+        let mut head = String::new();
+        let mut data: Vec<u8> = Vec::new();
+        for (num, body) in &packed {
+            head.push_str(&format!("{num} {} ", data.len()));
+            data.extend_from_slice(body);
+            data.push(b'\n');
+        }
+        let mut stm = head.clone().into_bytes();
+        stm.extend_from_slice(&data);
+        let stm_off = out.len() as u32;
+        out.extend_from_slice(format!("{stm_num} 0 obj\n").as_bytes());
+        out.extend_from_slice(&Self::stream_body(&format!("/Type /ObjStm /N {} /First {}", packed.len(), head.len()), &stm));
+        out.extend_from_slice(b"\nendobj\n");
+        for num in 1..=n {
+            entries.push(slot[&num]);
+        }
+        entries.push((1, stm_off, 0));
+        let xref_off = out.len() as u32;
+        entries.push((1, xref_off, 0));
+        let mut xd: Vec<u8> = Vec::new();
+        for (t, a, b) in &entries {
+            xd.push(*t);
+            xd.extend_from_slice(&a.to_be_bytes());
+            xd.extend_from_slice(&b.to_be_bytes());
+        }
+        out.extend_from_slice(format!("{xref_num} 0 obj\n").as_bytes());
+        out.extend_from_slice(&Self::stream_body(&format!("/Type /XRef /Size {} /W [1 4 2] /Root {root} 0 R", xref_num + 1), &xd));
+        out.extend_from_slice(format!("\nendobj\nstartxref\n{xref_off}\n%%EOF\n").as_bytes());
+        out
+    }
+}
